@@ -1129,6 +1129,7 @@ class Server:
                     transaction_id=0, error_code=ErrorCode.INVALID_REQUEST_SYNTAX
                 )
             )
+            return
 
         logger.debug(f'{color("<<< Received SDP Request", "green")}: {sdp_pdu}')
 
